@@ -15,6 +15,18 @@ claim("C02",
  "DESIGN.md 6/C02, 4.1",
  "ODS width 2. Not covered: the cached-node proof producer (share/ipld, eds/proofs_cache.go).")
 
+claim("C09",
+ "Bounded symbolic model checking of the real shrex stream handler (streamHandler, handleDataRequest, respondStatus, every request id's ReadFrom/Validate/ResponseSize/ResponseReader and the eds bounds-validation wrapper) for all five request types on an ARBITRARY request byte string (size-1..size+1 symbolic bytes), stored square width 2/4/8, block held / not held / store error, failing memory reservation and failing writes: never a panic; the accessor is closed exactly once iff it was obtained; memory is released iff reserved, same non-negative amount; truncated or invalid requests are reset without a status and without touching the store; a height that is not held is answered NOT_FOUND; out-of-bounds coordinates end in an error status and the inner accessor only ever sees in-bounds arguments.",
+ "symbolic execution of go/ssa + SMT over arbitrary request bytes; stream/scope/store/accessor are recording models",
+ "DESIGN.md 6/C09",
+ "Not covered: the client's status mapping (doRequest), rate limiter, real libp2p streams; that the served containers equal the requested data is C01 (honest containers verify) + C05.")
+
+claim("C10",
+ "Bounded symbolic model checking of the bitswap identifier/CID mapping with the real go-cid, go-multihash and go-varint code on symbolic bytes: for sample, row and range blocks every constructor-accepted id (all fields symbolic) maps to a CID that decodes back to the same id, and two accepted ids with equal CIDs are equal (injective; this is where the 16-bit range id collided before the fix). For the sample block the real hasher.write is run on an ARBITRARY inner CID byte string (length of the requested CID -1..+1): it succeeds only if the inner CID is byte-for-byte the requested one and the container verdict is positive, the container is verified with the requester's roots and the requested coordinates, the digest is the requested id, and a rejected block leaves the request unfulfilled.",
+ "symbolic execution of go/ssa (repository + go-cid/go-multihash/go-varint) + SMT; envelope/container protobuf decode and Sample.Verify are ideal verdicts",
+ "DESIGN.md 6/C10",
+ "Not covered: row-namespace-data block, two concurrent fetches of one CID, the serving side's Populate (C05/C09).")
+
 claim("C12",
  "Bounded symbolic model checking of the proof glue the node owns: blob Proof.equal on two arbitrary proofs (0..2 entries, nil entries, 0..2 nodes, symbolic ranges and bytes) answers nil exactly for structurally equal proofs and never panics; GetRangeResult.Verify on arbitrary results (missing proof, 0..3 data entries of 511..513 symbolic bytes) answers nil only when the shares handed out are byte-for-byte the proven data; data-root-tuple proofs for arbitrary 64-bit height/start/end/head pick leaf height-start among exactly end-start leaves whose encoding carries the height in the last 8 of 32 bytes for every 64-bit height. Library proof verification (nmt, merkle, cometbft) is an ideal verdict.",
  "symbolic execution of go/ssa + SMT over arbitrary proof/result values, ideal verdict stubs for library verification, native replay where no stub is involved",
